@@ -427,12 +427,36 @@ def flag_witness_inputs(parsed, limit=12):
     return outs
 
 
+def table_boundary_inputs(c, words, limit=70):
+    """inputs that probe the generated search tables at and beyond their ends (a character below the first
+    range, above the last one, char::MAX), alone and after prefixes of words of the rule languages"""
+    tr = gencode.Translator(c.impl["tokens"], c.name)
+    chars = []
+    for pairs in tr.tables.values():
+        for x in (pairs[0][0] - 1, pairs[0][0], pairs[-1][1], pairs[-1][1] + 1, 0x10FFFF, 0xF0000, pairs[len(pairs) // 2][1] + 1):
+            if 0 <= x <= 0x10FFFF and not (0xD800 <= x <= 0xDFFF) and x not in chars:
+                chars.append(x)
+    out = []
+    for ch in chars:
+        out.append([ch])
+        out.append([ch, ch])
+    for w in words:
+        for k in range(1, min(len(w), 4) + 1):
+            for ch in chars[:8]:
+                out.append(list(w[:k]) + [ch])
+    return out[:limit]
+
+
 def search_failing_input(ctx, c, projs, gen, n=80):
     """An artifact of this definition differs from the model's: look for an input on which the
     implementation departs from Spec (in this property's projection)."""
     ins = gen.inputs(c.d, n, max_len=10)
     try:
         ins = [(0, w) for w in flag_witness_inputs(c.impl)] + ins
+    except Exception:
+        pass
+    try:
+        ins = [(0, w) for w in table_boundary_inputs(c, [w for _, w in ins[:6]])] + ins
     except Exception:
         pass
     cc = Case(c.idx, c.d, [(ct, cps, None) for ct, cps in ins])
